@@ -58,6 +58,7 @@ def load_corpus(pid, sname):
 
 def run_stream(mod, st, rep, tier, seed, pool, extra_round=0):
     rng = seeded_rng(seed, mod.ID, st.name, extra_round)
+    st.seed = seed + 7919 * extra_round
     cases = (load_corpus(mod.ID, st.name) + list(st.corpus()) if extra_round == 0 else []) + list(st.gen(rng, tier))
     if not cases:
         return dict(name=st.name, evaluated=0, disagreements=0)
